@@ -60,6 +60,7 @@ type Program struct {
 	stubFns  map[string]*ssa.Function // mangled callee name -> harness stub
 	repoPath string
 	gopkg    *packages.Package
+	rewritten map[string][]byte
 }
 
 type Interp struct {
@@ -1214,9 +1215,7 @@ func (in *Interp) sliceOp(f *Frame, x *ssa.Slice) Value {
 		if b.obj == nil {
 			return Slice{len: zero, cap: zero}
 		}
-		if b.obj.lazy == nil && !nl.IsConst() {
-			nl = tc.Const(in.concretize(nl, "slice len"), 64)
-		}
+		// a symbolic length is kept symbolic (bounds are VCs); it is concretised only where a shape is needed
 		return Slice{obj: b.obj, off: b.off + l*esz, len: nl, cap: nc}
 	case Ptr:
 		in.nilCheck(b, "slice of array")
